@@ -32,26 +32,41 @@ fn warn_names(w: &[Warning]) -> Value {
     )
 }
 
-/// write_int(x) into a guarded 5-byte buffer, then read_int on what was written.
-fn do_int(x: i32) -> Value {
-    let mut g = Guarded::new(5);
+/// write_int(x) into a guarded buffer of `cap` bytes: ("ok" | "cap" | "panic", bytes written, canary intact)
+fn write_int_into(x: i32, cap: usize) -> (&'static str, Vec<u8>, bool) {
+    let mut g = Guarded::new(cap);
     let w = guarded(5000, || {
         with_packer(g.slice(), |mut p| {
             let r = p.write_int(x);
             (r.is_ok(), p.written().to_vec())
         })
     });
-    let (wres, enc) = match w {
+    let (res, enc) = match w {
         Ok((true, e)) => ("ok", e),
         Ok((false, e)) => ("cap", e),
         Err(_) => ("panic", vec![]),
     };
-    let mut o = json!({"x": x, "wres": wres, "enc": jbytes(&enc), "canary": g.intact()});
+    (res, enc, g.intact())
+}
+
+/// write_int(x) into a guarded 5-byte buffer, then read_int on what was written; then the same
+/// write into a buffer with exactly as much room as the encoding took, and into one byte less.
+fn do_int(x: i32) -> Value {
+    let (wres, enc, canary) = write_int_into(x, 5);
+    let mut o = json!({"x": x, "wres": wres, "enc": jbytes(&enc), "canary": canary});
     let r = do_dec(&enc);
     o["rres"] = r["res"].clone();
     o["rv"] = r["v"].clone();
     o["rused"] = r["used"].clone();
     o["rw"] = r["w"].clone();
+    let (xres, xenc, xc) = write_int_into(x, enc.len());
+    let (sres, _, sc) = write_int_into(x, enc.len().saturating_sub(1));
+    o["xres"] = json!(xres);
+    o["xenc"] = jbytes(&xenc);
+    o["sres"] = json!(sres);
+    if !(xc && sc) {
+        o["canary"] = json!(false);
+    }
     o
 }
 
@@ -234,7 +249,10 @@ fn replay(path: &str) {
                     && r["rres"] == "ok"
                     && r["rv"] == json!(x)
                     && r["rused"] == json!(enc.len())
-                    && r["rw"].as_array().map(|a| a.is_empty()).unwrap_or(false);
+                    && r["rw"].as_array().map(|a| a.is_empty()).unwrap_or(false)
+                    && r["xres"] == "ok"
+                    && bytes_of(&r["xenc"]) == enc
+                    && r["sres"] == "cap";
                 if !ok {
                     mm.add("int", vec![json!({"e": "ints", "items": [r]})], c.clone());
                 } else if sample.len() < 2 && (x as i64).abs() > 70000 {
@@ -519,6 +537,16 @@ fn drive(seed: u64, n_ints: usize, n_decs: usize, n_sessions: usize, path: &str)
             let wl = probe.last().map(|e| e["written"].as_array().map(|a| a.len()).unwrap_or(0)).unwrap_or(0);
             let min = (4 - wl % 4) % 4;
             s["pad"] = json!(if rng.gen_range(0..5) == 0 { min + 4 } else { min });
+        }
+        if rng.gen_range(0..2) == 0 && s["cap"].as_i64().unwrap_or(-1) >= 0 {
+            // exact fit: learn the real length after each write (generous buffer), then leave item j
+            // exactly its length, one byte less or one byte more of room
+            let probe = do_session(&json!({"cap": 4096, "writes": s["writes"], "reads": null}));
+            let afters: Vec<i64> = probe.iter().filter(|e| e["e"] == "w").map(|e| e["after"].as_i64().unwrap_or(0)).collect();
+            if !afters.is_empty() {
+                let j = rng.gen_range(0..afters.len());
+                s["cap"] = json!((afters[j] + rng.gen_range(-1..=1)).max(0));
+            }
         }
         for e in do_session(&s) {
             writeln!(out, "{}", e).unwrap();
